@@ -3,6 +3,7 @@ import Toq.Spec.Entangle
 import Toq.Proofs.Entangle
 import Toq.Proofs.Cert
 import Toq.Proofs.EntangleSk
+import Toq.Proofs.EntangleSkDps
 import Mathlib.LinearAlgebra.Matrix.Charpoly.Basic
 /-!
 # C14 — entanglement / entropy quantities: closed forms and local-unitary invariance
@@ -779,6 +780,51 @@ example :
       if (i.val = 1 ∨ i.val = 2) ∧ (j.val = 1 ∨ j.val = 2) then (if i.val = j.val then ⟨1/2, 0⟩ else ⟨-1/2, 0⟩) else 0
     let e0 : EMat 2 1 := EMat.ofFn fun i _ => if i.val = 0 then 1 else 0
     checkSkUpperPPT X Y (EMat.zero : EMat (2 * 2) 1) (1/2) (EMat.zero : EMat (2 * 2) 1) = some (1/2)
+      ∧ checkSkLower X e0 e0 = some (1/2) := by
+  decide +kernel
+
+/-! ## second level of the symmetric-extension hierarchy (k = 1) -/
+
+/-- **Upper certificate, k = 1, two-copy level.**  The PPT relaxation is exact only on `2×2` and `2×3`; from `2×4` and `3×3` on its optimum may sit at a PPT-entangled
+    state.  If the executable checker accepts `(Y, LY, λ, t, LS)` for the exact operator `X` — `Y ⪰ 0` on `A B₁ B₂` and
+    `Π (λ·1 − X ⊗ 1_{B₂} − Y^{T_{B₂}}) Π + t·(1 − Π) ⪰ 0` with `Π` the projector onto `ℂ^dA ⊗ Sym²(ℂ^dB)`, i.e. a dual feasible point of the Bose-symmetric two-copy
+    extension program with one partial transpose that `sk_operator_norm` solves at `effort = 2` — then every value `⟨v|X|v⟩` attained by a unit product vector is `≤` the
+    returned bound (for every rational `t`). -/
+theorem checkSkUpperDps_sound {dA dB p q : Nat} (X : EMat (dA * dB) (dA * dB)) (Y : EMat ((dA * dB) * dB) ((dA * dB) * dB))
+    (LY : EMat ((dA * dB) * dB) p) (lam t : Rat) (LS : EMat ((dA * dB) * dB) q) (hi : Rat)
+    (h : checkSkUpperDps X Y LY lam t LS = some hi) :
+    ∀ r ∈ skValues 1 (Toq.Sep.unflat X.toM), r ≤ (hi : ℝ) := by
+  obtain ⟨rfl, hY, hS⟩ := checkSkUpperDps_eq h
+  rintro r ⟨v, hv, hn, rfl⟩
+  obtain ⟨x, y, rfl⟩ := (schmidtLE_one_iff v).mp hv
+  have key := expect_le_of_checkSkUpperDps hY hS x y
+  rw [hn, one_mul] at key
+  have hy0 : 0 ≤ vnorm2 y := by rw [vnorm2_eq_nsq]; exact Toq.Sep.nsq_nonneg y
+  have hy : 0 < vnorm2 y := by
+    rcases hy0.eq_or_lt with h0 | h0
+    · have h1 := vnorm2_tprod x y
+      rw [hn, ← h0, mul_zero] at h1
+      exact absurd h1 one_ne_zero
+    · exact h0
+  exact le_of_mul_le_mul_right key hy
+
+/-- the certified bracket with the two-copy certificate on the upper side -/
+theorem sk_lower_le_upper_dps {dA dB p q : Nat} (X : EMat (dA * dB) (dA * dB)) (Y : EMat ((dA * dB) * dB) ((dA * dB) * dB))
+    (LY : EMat ((dA * dB) * dB) p) (lam t : Rat) (LS : EMat ((dA * dB) * dB) q)
+    (Xs : EMat dA 1) (Ys : EMat dB 1) (lo hi : Rat) (hlo : checkSkLower X Xs Ys = some lo)
+    (hhi : checkSkUpperDps X Y LY lam t LS = some hi) : lo ≤ hi := by
+  have := checkSkUpperDps_sound X Y LY lam t LS hi hhi _ (checkSkLower_sound X Xs Ys lo hlo)
+  exact_mod_cast this
+
+/-- a two-copy certificate that is accepted: `X` = Bell projector on `2 × 2`, `Y = Y₁ ⊗ 1_{B₁}` with `Y₁` the (unnormalised) antisymmetric projector on `A B₂`,
+    `λ = 1/2`, `t = 0`: the slack vanishes identically, the bound `1/2` is attained by `|00⟩` -/
+example :
+    let X : EMat (2 * 2) (2 * 2) := EMat.ofFn fun i j => if (i.val = 0 ∨ i.val = 3) ∧ (j.val = 0 ∨ j.val = 3) then ⟨1/2, 0⟩ else 0
+    let Y : EMat ((2 * 2) * 2) ((2 * 2) * 2) := EMat.ofFn fun i j =>
+      if i.val / 4 ≠ i.val % 2 ∧ j.val / 4 ≠ j.val % 2 ∧ (i.val / 2) % 2 = (j.val / 2) % 2 then
+        (if i.val / 4 = j.val / 4 then ⟨1/2, 0⟩ else ⟨-1/2, 0⟩) else 0
+    let e0 : EMat 2 1 := EMat.ofFn fun i _ => if i.val = 0 then 1 else 0
+    checkSkUpperDps X Y (EMat.zero : EMat ((2 * 2) * 2) 1) (1/2) 0 (EMat.zero : EMat ((2 * 2) * 2) 1) = some (1/2)
       ∧ checkSkLower X e0 e0 = some (1/2) := by
   decide +kernel
 
